@@ -24,16 +24,16 @@ theorem lexAll_single (U : UClass) (c : Char) (cs : List Char) (t : Tok) (hc : n
   simp [skipWs, skipWsAux, lexAllAux, lexOne]
 
 theorem quoteLiteral_lexAll (U : UClass) (s : List Char)
-    (h : ∀ c ∈ s, checkProhibited c true = none) :
+    (h : ∀ c ∈ s, c.toNat ≠ 0) :
     lexAll U (quoteLiteral s) = ([⟨.str, .str s⟩], none) := by
   have := quoteLiteral_lex U s [] h
   simp only [List.append_nil] at this
   simp only [quoteLiteral, List.cons_append] at this ⊢
   exact lexAll_single U _ _ _ (by unfold notWsStart; decide) this (by simp)
 
-theorem ppBytes_lexAll (U : UClass) (b : List UInt8) (h : ∀ x ∈ b, x.toNat ≠ 92) :
+theorem ppBytes_lexAll (U : UClass) (b : List UInt8) :
     lexAll U (ppBytes b) = ([⟨.binStr, .bytes b⟩], none) := by
-  have := ppBytes_lex U b [] h
+  have := ppBytes_lex U b []
   simp only [List.append_nil] at this
   simp only [ppBytes] at this ⊢
   exact lexAll_single U _ _ _ (by unfold notWsStart; decide) this (by simp)
@@ -57,12 +57,12 @@ theorem dollarQuote_lexAll (U : UClass) (s q : List Char)
     subst hq
     exact lexAll_single U _ _ _ (by unfold notWsStart; decide) hl (by simp)
 
-theorem ppStr_head (P : PyUnicode) (s q : List Char) (hq : ppStr P s = some q) :
+theorem ppStr_head (s q : List Char) (hq : ppStr s = some q) :
     ∃ c cs, q = c :: cs ∧ (c = '\'' ∨ c = '"' ∨ c = 'r' ∨ c = '$') := by
   unfold ppStr at hq
   split at hq
   · simp at hq; subst hq
-    rcases reprQuote_cases s with e | e <;> simp [pyRepr, e]
+    simp [quoteLiteral]
   · split at hq
     · split at hq <;> (simp at hq; subst hq; simp)
     · split at hq
@@ -78,12 +78,12 @@ theorem ppStr_head (P : PyUnicode) (s q : List Char) (hq : ppStr P s = some q) :
             subst hq
             simp
 
-theorem ppStr_lexAll (U : UClass) (P : PyUnicode) (s q : List Char)
-    (hq : ppStr P s = some q) (he : constExpressible P s = true) :
+theorem ppStr_lexAll (U : UClass) (s q : List Char)
+    (hq : ppStr s = some q) (he : constExpressible s = true) :
     lexAll U q = ([⟨.str, .str s⟩], none) := by
-  have hl := ppStr_lex U P s q [] hq he
+  have hl := ppStr_lex U s q [] hq he
   simp only [List.append_nil] at hl
-  obtain ⟨c, cs, rfl, hc⟩ := ppStr_head P s q hq
+  obtain ⟨c, cs, rfl, hc⟩ := ppStr_head s q hq
   refine lexAll_single U c cs _ ?_ hl (by simp)
   unfold notWsStart
   rcases hc with rfl | rfl | rfl | rfl <;> decide
